@@ -156,7 +156,18 @@ def main(tier):
     for nm in names[: (30 if tier == "quick" else 250)]:
         items.append({"id": f"insn:{nm}", "entry": rng.choice(["transform_insn", "compile_insn"]), "name": nm, "parts": beh[nm]})
     probes = [{"id": f"probe{k}", "entry": "stmt", "text": t} for k, t in enumerate(PROBES_AFTER_FAILURE)]
-    allitems = items + probes
+    # statements that call a routine registered through add_sub_routine AFTER construction (the registered resources are part of the input)
+    subitems = []
+    for k, (ret, params, body, call) in enumerate([
+            ("int32_t", ["int32_t p"], "{ return p + 1; }", "{ RdV = NAME(RsV) + 1; }"),
+            ("uint32_t", ["uint32_t p", "int32_t q"], "{ uint32_t r = p; r++; return r + clz32(q); }", "{ RdV = NAME(RsV, RtV) + NAME(RtV, siV); }"),
+            ("int64_t", ["int64_t p"], "{ if (p > 3) { return p - 1; } return p; }", "{ RddV = NAME(RssV); if (RddV > 4) { ReV = (int32_t) NAME(RttV); } }"),
+            ("uint8_t", ["int32_t p"], "{ return (uint8_t) (p >> 3); }", "{ PdV = NAME(RsV); RxV += NAME(RxV); }"),
+            ("int32_t", ["int32_t p", "int32_t q"], "{ int32_t i; int32_t a = 0; for (i = 0; i < 3; i++) { a += p ^ q; } return a; }", "{ int32_t z = NAME(RsV, 3); RdV = z + NAME(z, RtV); }"),
+            ("void", ["int32_t p"], "{ set_usr_field(bundle, HEX_REG_FIELD_USR_OVF, p & 1); }", "{ NAME(RsV); RdV = RsV; }")]):
+        name = f"hist_sub_{k}"
+        subitems.append({"id": f"sub{k}", "entry": "stmt", "text": call.replace("NAME", name), "sub": (name, ret, params, body)})
+    allitems = items + probes + subitems
     # ---- reference: compiled first in a pristine fork
     comps = S.comps
 
@@ -166,6 +177,8 @@ def main(tier):
         out = {}
         try:
             with contextlib.redirect_stdout(io.StringIO()):
+                if it.get("sub"):
+                    c.add_sub_routine(*it["sub"])
                 if it["entry"] == "stmt":
                     out["text"] = normalise(c.compile_c_stmt(it["text"]))
                     out["meta"] = harness.TRACE.meta
@@ -220,6 +233,7 @@ def main(tier):
         if h % 2:
             pool = list(reversed(pool))
         hist = []
+        pending = []
         two = h % 3 == 0
         # items that use the long-lived parameter operands (pkt, hi, bundle) occur twice in every long history
         pool = pool + [it for it in usable if it["id"].startswith("par")] * 2
@@ -232,10 +246,22 @@ def main(tier):
             elif x < 0.30:
                 other = r2.choice(usable)
                 hist.append(step_of(other, comp, failpoint=(r2.choice(failpoint_rules), r2.randint(1, 3))))
-            elif x < 0.34:
-                hist.append({"kind": "addsub", "id": None, "comp": comp, "entry": "addsub", "sub": (f"hist_sub_{h}_{len(hist)}", "int32_t", ["int32_t p"], "{ return p + 1; }")})
+            elif x < 0.38:
+                si = r2.choice(subitems)
+                hist.append({"kind": "addsub", "id": None, "comp": comp, "entry": "addsub", "sub": si["sub"]})
+                pending.append((si, comp))
             hist.append(step_of(it, comp))
+            if pending and r2.random() < 0.6:
+                si, cm = pending.pop(0)
+                hist.append(step_of(si, cm))
+        hist += [step_of(si, cm) for si, cm in pending]
         jobs.append(hist)
+    # (3) registration after construction on the first and on a later Compiler instance of the process, used at once and after other work
+    for si in subitems:
+        for comp in ("A", "B"):
+            r2 = random.Random(f"{run.seed}:inst:{si['id']}:{comp}")
+            mid = [step_of(it, comp) for it in r2.sample(usable, 2)]
+            jobs.append([{"kind": "addsub", "id": None, "comp": comp, "entry": "addsub", "sub": si["sub"]}, step_of(si, comp)] + mid + [step_of(si, comp)])
     results = harness.pmap(history_child, [(comps2, hist, pristine) for hist in jobs])
     compared = 0
     hist_with_fault = 0
@@ -243,6 +269,7 @@ def main(tier):
     faults = 0
     samples = []
     group_drift = 0
+    sub_calls = 0
     for hist, events in zip(jobs, results):
         if not isinstance(events, list):
             run.note_inconclusive(f"history child failed: {str(events)[:200]}")
@@ -271,6 +298,8 @@ def main(tier):
                 continue
             r = ref[step["id"]]
             compared += 1
+            if step["id"].startswith("sub"):
+                sub_calls += 1
             if ("exc" in r) != ("exc" in ev):
                 run.violation(f"`{str(desc)[:100]}` is {'rejected' if 'exc' in r else 'accepted'} when compiled first but {'rejected (' + ev.get('exc', '') + ')' if 'exc' in ev else 'accepted'} after this history",
                               {"kind": "acceptance", "step": step, "first": r, "after": {k: ev.get(k) for k in ("exc", "text")}, "history": trail[-8:]}, key="acceptance:" + str(step["id"])[:5])
@@ -294,7 +323,8 @@ def main(tier):
                 "histories that contain at least one failing compile (natural failure or fired failpoint) before a compared item",
         "samples": samples or [{"note": "none"}], "histories": len(jobs), "short_histories_fault_at_every_position": nshort * len(FAIL_KINDS) * 5,
         "failing_inputs": faults, "failpoints_fired": fired, "fault_kinds": sorted(FAIL_KINDS), "entry_points": ["compile_c_stmt", "transform_insn", "compile_insn", "add_sub_routine"],
-        "items": len(usable), "items_rejected_when_first": sum(1 for it in usable if "exc" in ref[it["id"]]), "two_compiler_histories": sum(1 for h in range(nlong) if h % 3 == 0),
+        "items": len(usable), "items_rejected_when_first": sum(1 for it in usable if "exc" in ref[it["id"]]), "two_compiler_histories": sum(1 for h in range(nlong) if h % 3 == 0) + len(subitems),
+        "calls_of_routines_registered_after_construction_compared": sub_calls,
         "group_flag_drift": group_drift,
     }, hard_inconclusive=None if compared > 20 and faults > 5 else "too few comparisons")
 
